@@ -8,7 +8,11 @@ import (
 
 // Threshold draws a compression threshold.
 func Threshold(t *tape.Tape, allowHuge bool) int {
-	switch t.Pick(3, 3, 2, 5, 2, 1) {
+	switch t.Pick(3, 3, 2, 5, 2, 1, 2) {
+	case 6:
+		// mid-range thresholds (512..16384 +-2): payloads of several KiB that stay
+		// uncompressed inside a compressed connection (C20-36)
+		return 1<<uint(9+t.Choose(6)) - 2 + t.Choose(5)
 	case 0:
 		return -1
 	case 1:
